@@ -223,6 +223,36 @@ STR_FORMS = re.compile(r"^(str\(|repr\(|FSTR$|'|pane\.util\.(pluralize|list_phra
                        r"|\(TRUTHY\(.*\.name\) or .*__name__\)*$|self\.opts\.in_format$)")
 
 
+def _accumulated_elements(f: FuncInfo, nz: Normalizer, cfg: CFG, name: str) -> t.Optional[t.List[str]]:
+    """Normal forms of everything appended to the local list ``name`` (None if it is not a list built empty and filled in place)."""
+    inits = []
+    stores: t.List[t.Tuple[ast.AST, Node]] = []
+    for n in cfg.live_nodes():
+        st = n.ast
+        if n.kind == 'stmt' and isinstance(st, (ast.Assign, ast.AnnAssign)) and getattr(st, 'value', None) is not None:
+            tgts = st.targets if isinstance(st, ast.Assign) else [st.target]
+            if any(isinstance(tg, ast.Name) and tg.id == name for tg in tgts):
+                inits.append(st.value)
+        for root in node_exprs(n):
+            for c in walk_no_nested(root):
+                if isinstance(c, ast.Call) and isinstance(c.func, ast.Attribute) and isinstance(c.func.value, ast.Name) \
+                        and c.func.value.id == name and c.func.attr in ('append', 'add') and len(c.args) == 1:
+                    stores.append((c.args[0], n))
+                elif isinstance(c, ast.Call) and isinstance(c.func, ast.Attribute) and isinstance(c.func.value, ast.Name) \
+                        and c.func.value.id == name and c.func.attr in ('extend', 'update', 'insert'):
+                    return None
+    if not inits or not all((isinstance(v, (ast.List, ast.Tuple)) and not v.elts) or (isinstance(v, ast.Call) and unparse(v.func) == 'list' and not v.args)
+                            for v in inits) or not stores:
+        return None
+    out = []
+    for (e, n) in stores:
+        try:
+            out.append(nz.expr(e, n))
+        except AnalysisError:
+            return None
+    return out
+
+
 def rule_descriptions_join_strings(model: Model, rule_id: str = 'C04-R7') -> RuleResult:
     """Every element handed to list_phrase (which joins them) is a string: descriptions are built while an error is being reported."""
     r = RuleResult(rule_id, 'the phrases joined into an expectation text are strings (str() / repr() of values, names, nested phrases)', floor=8)
@@ -257,6 +287,10 @@ def rule_descriptions_join_strings(model: Model, rule_id: str = 'C04-R7') -> Rul
                         elem = forms[0] if forms and all(STR_FORMS.match(x) for x in forms) else (forms[0] if forms else "''")
                         if forms and not all(STR_FORMS.match(x) for x in forms):
                             elem = next(x for x in forms if not STR_FORMS.match(x))
+                    elif isinstance(arg, ast.Name) and (acc_forms := _accumulated_elements(f, nz, cfg, arg.id)) is not None:
+                        # a local list filled by a loop (`xs = []` ... `xs.append(repr(v))`): every element stored in it
+                        bad_ = [x for x in acc_forms if not (STR_FORMS.match(x) or x.startswith(('str(', 'repr(', 'builtins.str(', 'builtins.repr(')))]
+                        elem = bad_[0] if bad_ else (acc_forms[0] if acc_forms else "''")
                     else:
                         form = nz.expr(arg, n, bound).lstrip('*')
                         changed = True
@@ -727,6 +761,15 @@ def rule_parameter_order(model: Model, rule_id: str = 'C17-R11') -> RuleResult:
     if sup is None or not sets:
         raise AnalysisError(f"{f.loc()}: __init_subclass__ no longer merges __parameters__ around super().__init_subclass__()")
 
+    after_sup: t.Set[int] = set()
+    todo_ = [m_ for (_lb, m_) in sup.succ]
+    while todo_:
+        x_ = todo_.pop()
+        if x_.id in after_sup:
+            continue
+        after_sup.add(x_.id)
+        todo_.extend(m_ for (_lb, m_) in x_.succ)
+
     def when_name(e: ast.Name, at: Node) -> t.Set[str]:
         ks: t.Set[str] = set()
         for d in rd.at(at, e.id):
@@ -738,8 +781,8 @@ def rule_parameter_order(model: Model, rule_id: str = 'C17-R11') -> RuleResult:
                     if isinstance(x, ast.Name) and x.id != e.id and rd.is_local(x.id):
                         ks |= when_name(x, d.node)
                 continue
-            if cfg.node_dominates(d.node, sup) and d.node is not sup:
-                ks.add('old')
+            if d.node is not sup and d.node.id not in after_sup:
+                ks.add('old')        # evaluated before typing's __init_subclass__ can have run
             elif cfg.node_dominates(sup, d.node):
                 ks.add('new')
             else:
@@ -772,6 +815,48 @@ def rule_parameter_order(model: Model, rule_id: str = 'C17-R11') -> RuleResult:
             else:
                 parts.append(e)
         flat(val)
+        helper_filtered = False
+        hq = model.resolve(val.func, f.module, f) if isinstance(val, ast.Call) else None
+        hg = model.functions.get(hq or '')
+        if hg is not None and hg.cls is None and hg.module is f.module and isinstance(hg.node, ast.FunctionDef) and isinstance(val, ast.Call) \
+                and not val.keywords and len(val.args) == len(hg.params):
+            # `_merge(old, new)`: which argument each part of the helper's result derives from (a small def-use closure inside the
+            # helper: assignments, loop targets, elements appended to a list)
+            derives: t.Dict[str, t.Set[int]] = {p_: {i_} for i_, p_ in enumerate(hg.params)}
+
+            def src(e: ast.AST) -> t.Set[int]:
+                # (filters of a comprehension say which elements are taken, not where they come from)
+                out_: t.Set[int] = set()
+                skip_: t.Set[int] = {id(y_) for x_ in ast.walk(e) if isinstance(x_, ast.comprehension) for i_ in x_.ifs for y_ in ast.walk(i_)}
+                for x_ in ast.walk(e):
+                    if isinstance(x_, ast.Name) and isinstance(x_.ctx, ast.Load) and id(x_) not in skip_:
+                        out_ |= derives.get(x_.id, set())
+                return out_
+            for _round in range(4):
+                for x_ in ast.walk(hg.node):
+                    if isinstance(x_, ast.Assign) and len(x_.targets) == 1 and isinstance(x_.targets[0], ast.Name):
+                        derives.setdefault(x_.targets[0].id, set()).update(src(x_.value))
+                    elif isinstance(x_, ast.AnnAssign) and isinstance(x_.target, ast.Name) and x_.value is not None:
+                        derives.setdefault(x_.target.id, set()).update(src(x_.value))
+                    elif isinstance(x_, ast.AugAssign) and isinstance(x_.target, ast.Name):
+                        derives.setdefault(x_.target.id, set()).update(src(x_.value))
+                    elif isinstance(x_, (ast.For, ast.comprehension)) and isinstance(x_.target, ast.Name):
+                        derives.setdefault(x_.target.id, set()).update(src(x_.iter))
+                    elif isinstance(x_, ast.Call) and isinstance(x_.func, ast.Attribute) and isinstance(x_.func.value, ast.Name) \
+                            and x_.func.attr in ('append', 'extend', 'add') and x_.args:
+                        derives.setdefault(x_.func.value.id, set()).update(src(x_.args[0]))
+            hrets = [x_ for x_ in ast.walk(hg.node) if isinstance(x_, ast.Return) and x_.value is not None]
+            if len(hrets) == 1:
+                parts = []
+                flat(hrets[0].value)
+                hparts = list(parts)
+                if all(len(src(p_)) == 1 for p_ in hparts):
+                    parts = [val.args[next(iter(src(p_)))] for p_ in hparts]
+                    first = next(iter(src(hparts[0]))) if hparts else -1
+                    helper_filtered = any(isinstance(c_, ast.Compare) and len(c_.ops) == 1 and isinstance(c_.ops[0], ast.NotIn)
+                                          and src(c_.comparators[0]) == {first} for c_ in ast.walk(hg.node))
+                else:
+                    parts = [val]
         order = [when(p, n) for p in parts]
         r.sample({'value': unparse(val)[:100], 'order': order})
         if order == ['old', 'new']:
@@ -793,7 +878,7 @@ def rule_parameter_order(model: Model, rule_id: str = 'C17-R11') -> RuleResult:
                         if d.kind in ('assign', 'walrus') and d.value is not None and cfg.node_dominates(sup, d.node):
                             defs_of(d.value, d.node, depth + 1)
         defs_of(parts[1], n)
-        filtered = False
+        filtered = helper_filtered
         for e in exprs:
             for x in ast.walk(e):
                 if isinstance(x, (ast.GeneratorExp, ast.ListComp, ast.SetComp)):
